@@ -895,4 +895,10 @@ def r01_w(ctx):
     witness_obligations(ctx, "R01.W", [('W1ReaderSealed', 'Reader cannot be implemented outside the crate'), ('W2PaddedNotNameable', 'the over-reading reader cannot be named outside the crate')])
 
 
-RULES = [("R01.1", r01_1), ("R01.2", r01_2), ("R01.2b", r01_2b), ("R01.3", r01_3), ("R01.4", r01_4), ("R01.5", r01_5), ("R01.6", r01_6), ("R01.7", r01_7), ("R01.8", r01_8), ("R01.9", r01_9), ("R01.10", r01_10), ("R01.11", r01_11), ("R01.W", r01_w)]
+def r01_s(ctx):
+    """no node of a copied-out document points into the caller's input (shared with C16: a dangling pointer is a memory-safety violation)"""
+    from . import c16
+    ctx.include(c16.r16_6, 'R01.S')
+
+
+RULES = [("R01.1", r01_1), ("R01.2", r01_2), ("R01.2b", r01_2b), ("R01.3", r01_3), ("R01.4", r01_4), ("R01.5", r01_5), ("R01.6", r01_6), ("R01.7", r01_7), ("R01.8", r01_8), ("R01.9", r01_9), ("R01.10", r01_10), ("R01.11", r01_11), ("R01.W", r01_w), ("R01.S", r01_s)]
